@@ -235,3 +235,142 @@ func runTableConcurrent(r *common.Run, carrier string, k int) {
 	}
 	r.Case(fmt.Sprintf("table-concurrent %s %d", carrier, k), true, "concurrent")
 }
+
+// runPeerCloseWhileWriting: the peer's <close/> arrives while the application is inside Write /
+// Flush on the same connection (review C, finding 1).  A goroutine of the application writes and
+// flushes in a loop until Write fails; the scripted peer acknowledges data stanzas and, once it has
+// seen `after` of them, sends its <close/> - with the IQ carrier BEFORE it acknowledges the stanza
+// the writer is waiting on (the realistic case of a peer that aborts), then answers that stanza with
+// item-not-found like a peer that has forgotten the stream.  Free running; for the race detector,
+// and as a functional check in every tier: the close is answered, the writer ends, and the data
+// stanzas carry the written bytes exactly once and in order (a prefix of what Write was given).
+func runPeerCloseWhileWriting(r *common.Run, carrier string, after int) {
+	p, err := newPeer()
+	if err != nil {
+		return
+	}
+	defer p.stop()
+	lines := []string{fmt.Sprintf("#peer close while the application writes carrier=%s after=%d (free running)", carrier, after)}
+	ln := p.h.Listen(p.rs.S)
+	acc := make(chan net.Conn, 1)
+	go func() { c, _ := ln.Accept(); acc <- c }()
+	p.feed(fmt.Sprintf(`<iq xmlns="jabber:client" type="set" id="o1" from="%s" to="me@example.net/h"><open xmlns="http://jabber.org/protocol/ibb" sid="S" block-size="16" stanza="%s"/></iq>`, peerJID, carrier))
+	var nc net.Conn
+	select {
+	case nc = <-acc:
+	case <-time.After(watchdog):
+		return
+	}
+	conn := nc.(*ibb.Conn)
+	p.pump(func() bool { return p.replies["o1"] != "" })
+	var attempted []byte // everything handed to Write, in order (also the chunk of a Write that failed)
+	wdone := make(chan struct{})
+	go func() {
+		defer close(wdone)
+		for i := 0; i < 4000; i++ {
+			chunk := bytes.Repeat([]byte{byte('a' + i%26)}, 1+i%23)
+			attempted = append(attempted, chunk...)
+			if _, err := conn.Write(chunk); err != nil {
+				return
+			}
+			if i%2 == 0 {
+				if conn.Flush() != nil {
+					return
+				}
+			}
+		}
+	}()
+	seen, closeSent := 0, false
+	t := time.NewTimer(watchdog)
+	defer t.Stop()
+	finished := false
+	for !finished {
+		select {
+		case e := <-p.in:
+			name := ""
+			if len(e.Children) > 0 {
+				name = e.Children[0].XMLName.Local
+			}
+			if name == "data" && (e.XMLName.Local == "iq" && e.Type == "set" || e.XMLName.Local == "message") {
+				seen++
+				if seen >= after && !closeSent {
+					closeSent = true
+					c := e.Children[0]
+					p.packets = append(p.packets, pkt{c.Seq, c.SID, c.Data})
+					cl := fmt.Sprintf(`<iq xmlns="jabber:client" type="set" id="pc1" from="%s" to="me@example.net/h"><close xmlns="http://jabber.org/protocol/ibb" sid="S"/></iq>`, peerJID)
+					if e.XMLName.Local == "iq" {
+						cl += fmt.Sprintf(`<iq xmlns="jabber:client" type="result" id="%s" from="%s"/>`, e.ID, peerJID)
+					}
+					p.feed(cl)
+					continue
+				}
+				if closeSent && e.XMLName.Local == "iq" {
+					// data after the close: the peer has no such stream any more
+					c := e.Children[0]
+					p.packets = append(p.packets, pkt{c.Seq, c.SID, c.Data})
+					p.feed(fmt.Sprintf(`<iq xmlns="jabber:client" type="error" id="%s" from="%s"><error type="cancel"><item-not-found xmlns="urn:ietf:params:xml:ns:xmpp-stanzas"/></error></iq>`, e.ID, peerJID))
+					continue
+				}
+			}
+			p.handle(e)
+		case <-wdone:
+			finished = true
+		case <-t.C:
+			finished = true
+			if !closeSent {
+				r.Notes = append(r.Notes, "peer-close-while-writing: the close was never sent")
+				return
+			}
+			r.Fail("close", "writer-does-not-end-after-peer-close:"+carrier, lines, "the peer closed the stream while the application was writing; its Write / Flush calls have not returned an error within the watchdog")
+		}
+	}
+	if !closeSent {
+		return
+	}
+	if !p.pump(func() bool { return p.replies["pc1"] != "" }) {
+		r.Fail("close", "peer-close-not-answered-while-writing:"+carrier, lines, "the peer's <close/>, sent while the application was inside Write, was not answered")
+	} else if p.replies["pc1"] != "ack" {
+		r.Fail("close", "peer-close-refused-while-writing:"+carrier, lines, "the peer's <close/> was answered "+p.replies["pc1"])
+	}
+	if !p.sync() {
+		r.Fail("serve-continues", "serve-stalled-after-peer-close-while-writing", lines, "the serve loop no longer answers")
+	}
+	<-wdoneOr(wdone)
+	var dec []byte
+	seqOK := true
+	for i, q := range p.packets {
+		d, _ := base64.StdEncoding.DecodeString(q.payload)
+		dec = append(dec, d...)
+		if q.seq != fmt.Sprint(i%65536) {
+			seqOK = false
+		}
+	}
+	if !bytes.HasPrefix(attempted, dec) {
+		r.Fail("deliver", "bytes-duplicated-or-reordered-by-peer-close-while-writing", lines, fmt.Sprintf("the data stanzas carry %d bytes that are not a prefix of the %d bytes given to Write (first difference at %d)", len(dec), len(attempted), firstDiff(attempted, dec)))
+	}
+	if !seqOK {
+		r.Fail("seq", "packet-numbers-not-consecutive-after-peer-close-while-writing", lines, "data stanzas are not numbered consecutively from 0")
+	}
+	r.Case(fmt.Sprintf("peer-close-while-writing %s %d", carrier, after), true, "concurrent")
+}
+
+func wdoneOr(c chan struct{}) chan struct{} {
+	o := make(chan struct{})
+	go func() {
+		select {
+		case <-c:
+		case <-time.After(watchdog):
+		}
+		close(o)
+	}()
+	return o
+}
+
+func firstDiff(a, b []byte) int {
+	for i := range b {
+		if i >= len(a) || a[i] != b[i] {
+			return i
+		}
+	}
+	return len(b)
+}
